@@ -213,10 +213,9 @@ class LogarithmicUnitType(UnitType):
             raise Exception('Only units with the same dimension can added together', unit1, unit2)
         if self.baseunits1.units!=self.baseunits2.units:
             raise Exception('Only the same units can be added', unit1, unit2)
-        mag1 = unit1.magnitude
-        mag2 = unit2.to(unit1.baseunits).magnitude
-        mag1.value = np.power(10,mag1.value*unit1.baseunits.magnitude)
-        mag2.value = np.power(10,mag2.value*unit2.baseunits.magnitude)
+        mag2 = unit2._convert(unit2.magnitude, unit2.baseunits, unit1.baseunits)
+        mag1 = Magnitude(np.power(10,unit1.magnitude.value*unit1.baseunits.magnitude), unit1.magnitude.error)
+        mag2 = Magnitude(np.power(10,mag2.value*unit1.baseunits.magnitude), mag2.error)
         mag = mag1 + mag2
         mag.value = np.log10(mag.value)/unit1.baseunits.magnitude
         return mag
@@ -226,10 +225,9 @@ class LogarithmicUnitType(UnitType):
             raise Exception('Only units with the same dimension can added together', unit1, unit2)
         if self.baseunits1.units!=self.baseunits2.units:
             raise Exception('Only the same units can be substracted', unit1, unit2)
-        mag1 = unit1.magnitude
-        mag2 = unit2.to(unit1.baseunits).magnitude
-        mag1.value = np.power(10,mag1.value*unit1.baseunits.magnitude)
-        mag2.value = np.power(10,mag2.value*unit2.baseunits.magnitude)
+        mag2 = unit2._convert(unit2.magnitude, unit2.baseunits, unit1.baseunits)
+        mag1 = Magnitude(np.power(10,unit1.magnitude.value*unit1.baseunits.magnitude), unit1.magnitude.error)
+        mag2 = Magnitude(np.power(10,mag2.value*unit1.baseunits.magnitude), mag2.error)
         mag = mag1 - mag2
         mag.value = np.log10(mag.value)/unit1.baseunits.magnitude
         return mag
